@@ -131,6 +131,16 @@ CLAIMED = {
          "Generated-input search: 120k histories (about 1M role statements) quick / 3M thorough over 140 access shapes (scans, index scans, joins, subqueries in every clause, views, CTEs, set operations, derived tables, INSERT..SELECT, UPDATE/DELETE with subqueries, upserts, TRUNCATE); a statement lacking a needed privilege must fail and leave observe(db) unchanged; non-interference probes on perturbed clones detect reads of unprivileged tables; writes are judged by their effects.",
          "The converse (all privileges held => no PermissionDenied) is demanded for plain tables only; references the engine never has to evaluate are counted, not demanded.",
          "DESIGN.md §6 C26"),
+ "C23": ("exploration",
+         "totality fuzzing of the SQL parser in isolated child processes (main thread, 8 MiB stack): grammar-generated valid statements mutated at token level, lexer stress forms, dictionary soup and nesting-depth ladders per construct; thorough tier adds a coverage-guided libFuzzer campaign (cargo-fuzz target `parse`) whose artifacts become replay files",
+         "Generated-input search: 150k generated + 6.8k fixed cases quick / 1.2M cases + 4M libFuzzer executions thorough; every input up to 64 KiB must return Ok or Err: no panic, no stack overflow (SIGSEGV classified in the worker), no CPU hang.",
+         "Per-construct overflow thresholds steer the generator only, not the oracle; libFuzzer campaigns are pinned approximately (-seed, -runs), the saved artifact is the reproducible unit.",
+         "DESIGN.md §6 C23"),
+ "C24": ("exploration",
+         "totality and exactness fuzzing of statement execution in isolated child processes: generated worlds with taught extremes, short histories and one 'wild' statement built without typing discipline (or a typed integer expression / SUM evaluated in i128 by the harness); thorough tier adds a libFuzzer campaign (target `exec`)",
+         "Generated-input search: 40k generated + 4k grid cases quick / 600k cases + 400k libFuzzer executions thorough; every executor entry point returns Ok or Err without panic, the database stays usable afterwards (COUNT(*) on every table, fresh CREATE/INSERT/SELECT), and integer +,-,* and SUM results equal the i128 value or are an error / NULL.",
+         "The harness profile has overflow-checks on, so a silent wrap surfaces as a panic; each finding text says what a release build does. Clock-dependent functions are not generated.",
+         "DESIGN.md §6 C24"),
  "C15": ("exploration",
          "invariant testing of index structures: after every statement of a generated history the PK hash index, UNIQUE hash indexes and every user index map are compared with a rebuild from scratch on a clone",
          "Generated-input search: 250k histories quick / 6M thorough with position-shifting deletes, updates of indexed/key columns, DELETE-all/TRUNCATE, INSERT..SELECT; uses only public APIs (primary_key_index, unique_indexes, get_index_data, rebuild_indexes).",
